@@ -5,7 +5,7 @@ use ast_grep_config::verif_hooks as cfg_hooks;
 use ast_grep_config::{from_yaml_string, GlobalRules};
 use ast_grep_core::meta_var::MetaVariable;
 use ast_grep_core::replacer::verif_hooks as rep_hooks;
-use ast_grep_core::Language;
+use ast_grep_core::{Language, Pattern};
 use ast_grep_language::SupportLang;
 use serde_json::{json, Value};
 use std::collections::BTreeMap;
@@ -359,6 +359,65 @@ pub fn oracle(ctx: &Ctx, rng: &mut Rng, o: &mut Out) {
       }
     }
     o.oracle("spelling-lang-done", true, json!({"lang": l.to_string(), "cases": strings.len()}));
+    // the same spellings through the ENTRY POINTS that build patterns: a plain pattern
+    // (`Pattern::try_new`) and a contextual one (`Pattern::contextual`, the object form of a rule
+    // file and `--selector` on the command line) read a lone spelling the same, documented way
+    let mut entry_cases = 0usize;
+    for sp in ["$A", "$$A", "$_", "$$_", "$$$", "$$$A", "$A1", "$_X", "$$$_"] {
+      if sp.contains(e) && !(e == '_' && sp.starts_with('$')) {
+        continue;
+      }
+      let spec = spec_spelling(sp);
+      let vars = |p: &ast_grep_core::matcher::PatternNode| -> Vec<Value> {
+        fn go(p: &ast_grep_core::matcher::PatternNode, out: &mut Vec<Value>) {
+          match p {
+            ast_grep_core::matcher::PatternNode::MetaVar { meta_var } => out.push(mv_json(&Some(meta_var.clone()))),
+            ast_grep_core::matcher::PatternNode::Terminal { .. } => {}
+            ast_grep_core::matcher::PatternNode::Internal { children, .. } => children.iter().for_each(|c| go(c, out)),
+          }
+        }
+        let mut out = vec![];
+        go(p, &mut out);
+        out
+      };
+      let Ok(plain) = Pattern::try_new(sp, *l) else { continue };
+      let pv = vars(&plain.node);
+      if pv.len() != 1 {
+        // the lone spelling is no single node in this grammar: nothing to compare
+        continue;
+      }
+      entry_cases += 1;
+      if pv != vec![spec.clone()] {
+        // the same reading as `extract_meta_var` above: the same fingerprint (one defect, two routes)
+        let kind = spec.get(0).and_then(|k| k.as_str()).unwrap_or("none").to_string();
+        o.oracle("spelling", false, json!({"fp": format!("spelling expando={e} spec={kind}"), "lang": l.to_string(), "s": sp, "expected": spec, "actual": pv, "route": "Pattern::try_new"}));
+      }
+      // the kind of the node the lone spelling parses to (in the pre-processed text)
+      let pre = l.pre_process_pattern(sp).to_string();
+      let g = l.ast_grep(&pre);
+      let mut node = g.root();
+      loop {
+        let kids: Vec<_> = node.children().collect();
+        if kids.len() != 1 {
+          break;
+        }
+        node = kids.into_iter().next().unwrap();
+      }
+      let kind = node.kind().to_string();
+      if kind.is_empty() || kind == "ERROR" || node.children().len() != 0 || g.root().dfs().any(|n| n.is_error()) {
+        continue;
+      }
+      entry_cases += 1;
+      let got = match Pattern::contextual(sp, &kind, *l) {
+        Ok(cp) => json!(vars(&cp.node)),
+        Err(err) => json!(format!("error: {err}")),
+      };
+      // (against the plain pattern's reading: a spelling the language misreads is reported once, above)
+      if got != json!(pv) {
+        o.oracle("spelling", false, json!({"fp": format!("pattern entry point: a contextual pattern reads a spelling differently from a plain pattern, expando={e}"), "lang": l.to_string(), "s": sp, "selector": kind, "plain": pv, "documented": spec, "actual": got}));
+      }
+    }
+    o.oracle("spelling-entry-points", true, json!({"lang": l.to_string(), "cases": entry_cases}));
   }
   // An+B: i selected iff exists n >= 0 with i+1 = a*n+b (brute force over n)
   let alphabet = ['n', 'N', '+', '-', '0', '1', '2', '9', ' '];
